@@ -247,6 +247,10 @@ LIFECYCLE_TEXTS = [
     'def e1 { salt: "a b" splitters: uid return "A" weighted 1, "B" weighted 1, "C" weighted 1 }',
     'def e1 { splitters: uid return "A" weighted 1, "B" weighted 1 $ }',
     'def e1 { return "A" weighted }',
+    'def e1 { splitters: uid return "A" weighted 1, "B" weighted 1 } }',
+    'def e1 { splitters: uid return "A" weighted 1 } def e2 { splitters: uid return "B" weighted 1 }',
+    'def e1 { splitters: uid return "a" weighted 12, "b" weighted 21 }',
+    'def e1 { splitters: uid return "a" weighted 21, "b" weighted 12 }',
     'def',
     'def e1 { splitters: uid return "A" weighted 1, "B" weighted 1 ',
     '',
@@ -277,14 +281,18 @@ def lifecycle_diff(req):
             r = outcome(ev, **kw)
             out.append((r["outcome"], r.get("value") if r["outcome"] == "return" else r.get("exc")))
         return out
+    from spec import dsl_ref
     valid = {}
     ref = {}
     for t in texts:
-        try:
-            ref[t] = behaviour(fresh(t))
-            valid[t] = True
-        except BaseException:   # noqa
-            valid[t] = False
+        # validity is decided by the REFERENCE recogniser of the documented grammar, not by the code under test
+        valid[t] = dsl_ref.parse_text(t)[0] == "ok"
+        if valid[t]:
+            try:
+                ref[t] = behaviour(fresh(t))
+            except BaseException as e:   # noqa
+                return {"evaluations": 1, "sequences": 0, "valid_texts": 0, "invalid_texts": 0,
+                        "failures": [{"history": [["new", 0, t]], "what": "a grammatical text does not compile: %s" % type(e).__name__}], "bound": "alphabet check"}
     fails, evals, seqs = [], 0, 0
     ops = [(i, t) for i in (0, 1) for t in texts]
     for L in range(1, maxlen + 1):
@@ -364,7 +372,7 @@ def trivia_diff(req):
     from pyab_experiment.utils.wraper_functions import parse_source
     rnd = random.Random(req.get("seed", 0))
     pool = req.get("pool", [" ", "\n", "\t \n", "/* x */", "/* a */ /* b */", "// c\n", "/* ' \" // * if def */", "/*\n*\n*/", "/**/", "/* * / */", "//\n", "/* a */\t/* b */ // c\n",
-                            "// a\x0c, \"Z\" weighted 9\n", "// a\u2028 b \u2029 c \x85 d \x1c e\n", "/* a\x0c b \u2028 */", "\r\n", "\x0b", "// \r x\n"])
+                            "// a\x0c, \"Z\" weighted 9\n", "// a\u2028 b \u2029 c \x85 d \x1c e\n", "/* a\x0c b \u2028 */", "\r\n", "\x0b", "// \r x\n", "/*/ x */", "/*// x */", "/*/*/", "/*/ , \"Z\" weighted 9 /* */"])
     fails, evals, limit = [], 0, req.get("limit", 3)
     sink = io.StringIO()
 
